@@ -538,6 +538,8 @@ fn load_content(sh: &Shared) -> ([PathBuf; 2], [Vec<u8>; 2]) {
 enum Item {
     Hist { backend: Backend, root: String, first: usize },
     Transfer { backend: Backend, path: usize },
+    /// the whole history offline, then the server is added (thorough)
+    TransferLate { backend: Backend, path: usize },
     Upload { part: usize, parts: usize },
 }
 
@@ -762,22 +764,8 @@ async fn run_transfer(sh: &Shared, backend: Backend, path: &[Op], wd: &Path) -> 
             }
             out.states.insert(format!("net-{}|{}|{}", backend.name(), m.canon(), if m.known { "" } else { "op failed" }));
         }
-        // the second device decrypts what it holds to the original content
         if m.known {
-            let paths = dev2.paths();
-            for s in m.secrets.iter().filter(|s| s.alive) {
-                let name: ExternalFileName = s.name.parse().expect("name");
-                let p = paths.into_file_path_parts(&vid(&m.folders[s.folder as usize]), &sid(&s.id), &name);
-                if !p.exists() {
-                    continue;
-                }
-                out.cnt.decrypts += 1;
-                match dev2.download_file(&vid(&m.folders[s.folder as usize]), &sid(&s.id), &name).await {
-                    Ok(b) if b == cbytes[s.content as usize] => {}
-                    Ok(_) => fails.push("transfer:device2_decrypt_mismatch".into(), "the second device decrypts a transferred blob to other bytes than the original file".into(), json!({"history": path})),
-                    Err(e) => fails.push("transfer:device2_decrypt_failed".into(), format!("download_file on the second device: {}", e), json!({"history": path})),
-                }
-            }
+            decrypt_on(&dev2, &m, &cbytes, path, &mut fails, &mut out.cnt).await;
         }
         out.histories += 1;
         let _ = dev1.sign_out().await;
@@ -794,6 +782,101 @@ async fn run_transfer(sh: &Shared, backend: Backend, path: &[Op], wd: &Path) -> 
         out.error = Some(format!("transfer world: {}", e));
     }
     out
+}
+
+/// Part (b), second mode: the editing device performs the whole history
+/// with no server configured, then adds the server (account creation +
+/// `sync_file_transfers`), then the second device adds the server.
+async fn run_transfer_late(sh: &Shared, backend: Backend, path: &[Op], wd: &Path) -> ItemOut {
+    let mut out = ItemOut::new();
+    let tpl = tpl_of(sh, backend);
+    let (cpaths, cbytes) = load_content(sh);
+    let account_id: AccountId = tpl.account_id.parse().unwrap();
+    let sfx = if backend == Backend::Db { "offline_then_connected:sqlite" } else { "offline_then_connected" };
+    let last = path.last().map(|o| o.kind()).unwrap_or("nothing");
+    let res: Result<()> = async {
+        let _ = std::fs::remove_dir_all(wd);
+        let (d1, d2) = (wd.join("d1"), wd.join("d2"));
+        fsutil::copy_dir(Path::new(&tpl.dir_e), &d1)?;
+        fsutil::copy_dir(Path::new(&tpl.dir_e), &d2)?;
+        let mut m = tpl.model_e.clone();
+        let mut fails = Fails::default();
+        let mut dev1 = net_open(&d1, backend, account_id, "device_1").await?;
+        for op in path {
+            let r = apply(&mut dev1, &mut m, op, &cpaths).await;
+            out.cnt.transitions += 1;
+            if let Err(e) = &r {
+                *out.cnt.op_errors.entry(format!("network(offline):{}: {}", op.kind(), e.chars().take(80).collect::<String>())).or_default() += 1;
+            }
+            out.states.insert(format!("late-{}|{}|{}", backend.name(), m.canon(), if m.known { "" } else { "op failed" }));
+        }
+        let server = start_server(&wd.join("server"), backend == Backend::Db, None, None).await?;
+        if let Some(r) = dev1.add_server(server.origin.clone()).await? {
+            if let Err(e) = r.result {
+                *out.cnt.op_errors.entry(format!("device1 add_server: {}", e.to_string().chars().take(80).collect::<String>())).or_default() += 1;
+            }
+        }
+        if !settle(&dev1).await {
+            fails.push(format!("transfer:device1_transfers_do_not_settle:after_{}:{}", last, sfx), format!("the transfer queue of the editing device is still busy {:?} after the server was added", SETTLE_HORIZON), json!({}));
+        }
+        check_device(&dev1, &mut m, &cbytes, "transfer", "device1", last, sfx, false, &mut fails, &mut out.cnt).await;
+        let expected = m.expected();
+        if m.known {
+            check_server(&server, &account_id, last, sfx, &expected, &mut fails, &mut out.cnt).await;
+        }
+        let mut dev2 = net_open(&d2, backend, account_id, "device_2").await?;
+        if let Some(r) = dev2.add_server(server.origin.clone()).await? {
+            if let Err(e) = r.result {
+                *out.cnt.op_errors.entry(format!("device2 add_server: {}", e.to_string().chars().take(80).collect::<String>())).or_default() += 1;
+            }
+        }
+        out.cnt.syncs += 1;
+        if !settle(&dev2).await {
+            fails.push(format!("transfer:device2_transfers_do_not_settle:after_{}:{}", last, sfx), format!("the transfer queue of the second device is still busy {:?} after the server was added", SETTLE_HORIZON), json!({}));
+        }
+        if m.known {
+            let paths = dev2.paths();
+            let disk = walk_blobs(&paths.into_files_dir());
+            out.cnt.store_checks += 1;
+            out.cnt.blobs_hashed += disk.blobs.len() as u64;
+            let log = log_set(&dev2).await;
+            check_store("transfer", "device2", last, sfx, &disk, log.as_ref().ok(), None, &expected, &mut fails);
+            decrypt_on(&dev2, &m, &cbytes, path, &mut fails, &mut out.cnt).await;
+        }
+        out.histories += 1;
+        let _ = dev1.sign_out().await;
+        let _ = dev2.sign_out().await;
+        server.stop().await;
+        let kinds: Vec<&str> = path.iter().map(|o| o.kind()).collect();
+        for f in fails.0 {
+            out.fails.push(json!({"sig": f["sig"], "what": format!("history {:?} performed offline, then the server is added: {}", kinds, f["what"].as_str().unwrap_or("")), "witness": {"engine": "filex", "part": "b-late", "backend": backend, "path": path, "detail": f["detail"]}}));
+        }
+        out.samples.push(json!({"part": "b (offline, then connected)", "backend": backend.name(), "history": path, "blobs_expected_after": m.expected().len()}));
+        Ok(())
+    }
+    .await;
+    if let Err(e) = res {
+        out.error = Some(format!("transfer world (late): {}", e));
+    }
+    out
+}
+
+/// The second device decrypts what it holds to the original content.
+async fn decrypt_on(dev2: &NetworkAccount, m: &Model, cbytes: &[Vec<u8>; 2], path: &[Op], fails: &mut Fails, cnt: &mut Counters) {
+    let paths = dev2.paths();
+    for s in m.secrets.iter().filter(|s| s.alive) {
+        let name: ExternalFileName = s.name.parse().expect("name");
+        let p = paths.into_file_path_parts(&vid(&m.folders[s.folder as usize]), &sid(&s.id), &name);
+        if !p.exists() {
+            continue;
+        }
+        cnt.decrypts += 1;
+        match dev2.download_file(&vid(&m.folders[s.folder as usize]), &sid(&s.id), &name).await {
+            Ok(b) if b == cbytes[s.content as usize] => {}
+            Ok(_) => fails.push("transfer:device2_decrypt_mismatch".into(), "the second device decrypts a transferred blob to other bytes than the original file".into(), json!({"history": path})),
+            Err(e) => fails.push("transfer:device2_decrypt_failed".into(), format!("download_file on the second device: {}", e), json!({"history": path})),
+        }
+    }
 }
 
 // ---------------------------------------------------------------------
@@ -1111,6 +1194,9 @@ fn items(tier: Tier) -> (Vec<Item>, Vec<Vec<Op>>) {
                 }
                 for i in 0..paths.len() {
                     v.push(Item::Transfer { backend, path: i });
+                    if tier == Tier::Thorough {
+                        v.push(Item::TransferLate { backend, path: i });
+                    }
                 }
             }
         }
@@ -1124,7 +1210,7 @@ fn items(tier: Tier) -> (Vec<Item>, Vec<Vec<Op>>) {
     if let Ok(p) = std::env::var("VKIT_FILEX_PARTS") {
         v.retain(|i| match i {
             Item::Hist { .. } => p.contains('a'),
-            Item::Transfer { .. } => p.contains('b'),
+            Item::Transfer { .. } | Item::TransferLate { .. } => p.contains('b'),
             Item::Upload { .. } => p.contains('c'),
         });
     }
@@ -1170,6 +1256,7 @@ async fn run_item(sh: &Shared, it: &Item, paths: &[Vec<Op>], tier: Tier, wd: &Pa
     let out = match it {
         Item::Hist { backend, root, first } => explore(sh, *backend, root, Some(*first), None, depth_a(tier), tier, wd).await,
         Item::Transfer { backend, path } => run_transfer(sh, *backend, &paths[*path], wd).await,
+        Item::TransferLate { backend, path } => run_transfer_late(sh, *backend, &paths[*path], wd).await,
         Item::Upload { part, parts } => run_upload(sh, *part, *parts, tier, wd, None).await,
     };
     let _ = std::fs::remove_dir_all(wd);
@@ -1193,6 +1280,11 @@ fn replay(args: &Args, path: &Path) -> ! {
                 let root = wit["root"].as_str().unwrap_or("E").to_string();
                 std::fs::create_dir_all(&wd).unwrap();
                 rt.block_on(explore(&sh, backend, &root, None, Some(&hist), hist.len(), Tier::Thorough, &wd))
+            }
+            Some("b-late") => {
+                let p: Vec<Op> = serde_json::from_value(wit["path"].clone()).expect("path");
+                let backend: Backend = serde_json::from_value(wit["backend"].clone()).unwrap_or(Backend::Fs);
+                rt.block_on(run_transfer_late(&sh, backend, &p, &wd))
             }
             Some("b") => {
                 let p: Vec<Op> = serde_json::from_value(wit["path"].clone()).expect("path");
@@ -1275,7 +1367,7 @@ fn main() {
                 }
                 let k = match its[i] {
                     Item::Hist { .. } => 0,
-                    Item::Transfer { .. } => 1,
+                    Item::Transfer { .. } | Item::TransferLate { .. } => 1,
                     Item::Upload { .. } => 2,
                 };
                 histories[k] += v["histories"].as_u64().unwrap_or(0);
@@ -1324,7 +1416,7 @@ fn main() {
     cov.insert("traces_validated_against_impl".into(), json!(histories[0] + histories[1] + histories[2]));
     cov.insert("samples".into(), json!(all_samples));
     cov.insert("exhaustive".into(), json!(true));
-    cov.insert("rule".into(), json!(format!("(a) every history up to depth {da} over {{create file secret (6000-byte content in the default folder | 100-byte content in the second folder; the other combinations arise through replace and move), replace content (Account::update_file), update meta only, move to the other folder, delete secret, delete the second folder, archive}} x every live file secret, from the two-folder account (file-system and sqlite client backends) and from the two-folder account that already holds one file secret (i.e. depth {da1} histories that begin with a create; {pb}), explored as a tree with directory snapshots; each file encryption / decryption costs about 1 s (age scrypt), hence the shallow depth. (b) every maximal history of depth {db} from the two-folder account through the real NetworkAccount (sync + file transfer queue) against an in-process server, second device = real NetworkAccount on a copy of the initial account that syncs after every step. (c) a {blen}-byte real encrypted blob: every single-byte alteration ({vals} per position), truncation at every length, empty, 3 extended bodies, 2 wrong names, connection closed midway at {ab} length, repeated upload; each followed by a correct upload and a download. A state is the id-free model state (folder liveness, per file secret folder and content) per backend", da = depth_a(args.tier), da1 = depth_a(args.tier) + 1, pb = args.tier.pick("file-system backend only in this tier", "both backends"), db = depth_b(args.tier), blen = std::fs::metadata(&sh.upload_blob).map(|m| m.len()).unwrap_or(0), vals = args.tier.pick("3 values", "all 255 values"), ab = args.tier.pick("every 16th", "every"))));
+    cov.insert("rule".into(), json!(format!("(a) every history up to depth {da} over {{create file secret (6000-byte content in the default folder | 100-byte content in the second folder; the other combinations arise through replace and move), replace content (Account::update_file), update meta only, move to the other folder, delete secret, delete the second folder, archive}} x every live file secret, from the two-folder account (file-system and sqlite client backends) and from the two-folder account that already holds one file secret (i.e. depth {da1} histories that begin with a create; {pb}), explored as a tree with directory snapshots; each file encryption / decryption costs about 1 s (age scrypt), hence the shallow depth. (b) every maximal history of depth {db} from the two-folder account through the real NetworkAccount (sync + file transfer queue) against an in-process server, second device = real NetworkAccount on a copy of the initial account that syncs after every step{late}. (c) a {blen}-byte real encrypted blob: every single-byte alteration ({vals} per position), truncation at every length, empty, 3 extended bodies, 2 wrong names, connection closed midway at {ab} length, repeated upload; each followed by a correct upload and a download. A state is the id-free model state (folder liveness, per file secret folder and content) per backend", da = depth_a(args.tier), da1 = depth_a(args.tier) + 1, pb = args.tier.pick("file-system backend only in this tier", "both backends"), db = depth_b(args.tier), late = args.tier.pick("", "; and the same histories performed with no server configured, after which first the editing device and then the second device add the server"), blen = std::fs::metadata(&sh.upload_blob).map(|m| m.len()).unwrap_or(0), vals = args.tier.pick("3 values", "all 255 values"), ab = args.tier.pick("every 16th", "every"))));
     cov.insert("part_a_histories_one_device".into(), json!({"histories": histories[0], "depth": depth_a(args.tier), "backends": ["fs", "sqlite"], "work_items": its.iter().filter(|i| matches!(i, Item::Hist { .. })).count()}));
     cov.insert("part_b_transfer".into(), json!({"machinery": "real sos_net::NetworkAccount on both devices (add_server, automatic sync after every operation, its own file transfer queue); not the bare HttpClient file API", "maximal_histories": histories[1], "depth": depth_b(args.tier), "device_and_server_backends": args.tier.pick("fs", "fs and sqlite"), "second_device_syncs": cnt.syncs}));
     cov.insert("part_c_upload_inputs".into(), json!({"inputs": histories[2], "http_requests": cnt.requests, "wrong_bodies_refused": refused, "correct_uploads_accepted_afterwards": accepted, "responses": upload_status}));
